@@ -388,13 +388,20 @@ def run(ctx: Ctx) -> int:
     if r.errors or (r.rc != 0 and not r.violated):
         raise MachineryError(f"TLC failed: {r.errors[:3]} rc={r.rc}\n" + "\n".join(r.out.splitlines()[-30:]))
     # re-entrant traversals: a visit_* / depart_* method walks a detached tree with the same visitor
-    rn = ctx.tlc("Visitor", CFG_ENUM.format(maxn=maxn, hists='{"fresh"}', nestings='{"nested"}', nmp=1 if ctx.quick else 3), workers="auto", check=False, timeout=3000)
-    if rn.errors or (rn.rc != 0 and not rn.violated):
-        raise MachineryError(f"TLC failed (nested): {rn.errors[:3]} rc={rn.rc}\n" + "\n".join(rn.out.splitlines()[-30:]))
+    # (quick: trees of <= 3 nodes with at most one pruning node in the outer tree; thorough: <= 3 nodes with any pruning, and
+    #  <= 4 nodes with at most one pruning node - the product of all dimensions at 4 nodes is ~10^6 configurations)
+    nested_runs = [(maxn, 1)] if ctx.quick else [(3, 3), (4, 1)]
+    nested_recs: List[Dict[str, Any]] = []
+    design_violations = list(r.violated)
+    for mn, nmp in nested_runs:
+        rn = ctx.tlc("Visitor", CFG_ENUM.format(maxn=mn, hists='{"fresh"}', nestings='{"nested"}', nmp=nmp), workers="auto", check=False, timeout=3000)
+        if rn.errors or (rn.rc != 0 and not rn.violated):
+            raise MachineryError(f"TLC failed (nested): {rn.errors[:3]} rc={rn.rc}\n" + "\n".join(rn.out.splitlines()[-30:]))
+        design_violations += list(rn.violated)
+        nested_recs += rn.printed
     ctx.exhaustive = True
-    design_violations = list(r.violated) + list(rn.violated)
-    recs = r.printed + rn.printed
-    ctx.extra["configurations_with_an_inner_traversal"] = len(rn.printed)
+    recs = r.printed + nested_recs
+    ctx.extra["configurations_with_an_inner_traversal"] = len(nested_recs)
     if not recs:
         raise MachineryError("TLC emitted no behaviour")
     mismatches = 0
